@@ -43,19 +43,22 @@ CHECKS["C20"] = {
 }
 
 CHECKS["C14"] = {
-    "replay_test": "TestC14Replay",
+    "replay_test": "TestC14Replay|TestWorldReplay",
     "race": True,
     "crash_is_violation": True,
     "unconfirmed_is_violation": True,
     "replay_times": 2,
     "env": {"DEADLOCK_DETECTION_ENABLED": "true", "DEADLOCK_TIMEOUT_SECONDS": "60", "GORACE": "halt_on_error=0"},
-    "runs": [{"test": "TestC14", "shards_quick": 12, "checks_quick": 6, "shards_thorough": 16, "checks_thorough": 120, "args": ["-rapid.shrinktime", "1s"]}],
+    "runs": [{"test": "TestC14", "shards_quick": 12, "checks_quick": 6, "shards_thorough": 16, "checks_thorough": 120, "args": ["-rapid.shrinktime", "1s"]},
+             {"test": "TestC14MidCycle", "shards_quick": 4, "checks_quick": 150, "shards_thorough": 16, "checks_thorough": 1500}],
     "rule": "runs of the real asynchronous stack (entry point: scheduling loop, three RM event handler goroutines, RM proxy, timers, quota preemption loop, event system) built with the race "
             "detector and with the lock tracker (go-deadlock) switched on: 3-6 client goroutines send generated request scripts (15-60 requests each: applications incl. gang, asks, releases, "
             "application removals, node add/update/drain/remove, configuration reloads) at the same time, 1-3 reader goroutines call the real REST handlers in process, the shim side confirms "
             "releases from its own goroutine, the lock wrappers yield at a generated rate (build-tagged hook). Oracle: no race report, no lock tracker report, no panic, every request answered, "
             "nothing blocked, and the quiescent oracles of C01/C03/C05/C09 on the settled state and after every application was removed (everything back to zero). non-trivial = at least 60 "
-            "requests, 5 allocations and a reload or a placeholder swap in the run; distinct = hash of the generated case",
+            "requests, 5 allocations and a reload or a placeholder swap in the run; distinct = hash of the generated case. Second run (TestC14MidCycle): synchronous world histories in which "
+            "an RM request (release of the ask being allocated, removal of its application, removal or drain of its node, release of a placeholder) is delivered exactly between the two halves "
+            "of a scheduling cycle (build-tagged interleaving point), judged by the SI protocol model and the quiescent invariants every step; non-trivial = two different mid-cycle requests delivered",
     "assumptions": COMMON_ASSUMPTIONS + ["the interleavings are those the Go scheduler produces under the generated workload and yield rate: a run is not a pure function of VERIF_SEED, a failure "
                                          "is reported with the recorded request/response history even when re-running its case does not fail again",
                                          "a time budget that runs out is a verdict only when goroutines of the core wait at the same place in two dumps three seconds apart, otherwise inconclusive",
